@@ -1,6 +1,7 @@
 """Property -> units / harnesses / stated assumptions.  Units are /verif/units/<name>.vrs."""
 
 UNIT_NOTES = {
+    "configdb": "C20 global/database.rs: ConfigDatabase::{get,set,flush,validate} over the DB shim and validate_config_database with the file system as uninterpreted predicates",
     "auth": "C12 server/auth.rs: validate_call / validate_notification / HttpNonBlockingAuth::{allow,new,validate} + per-method obligations generated from api.rs on every run",
     "dbfacade": "L4 Brc20ProgDatabase against the L3 CONTRACT FILES (tables opaque): heights, stamped setters, require_block_does_not_exist, set_block_hash, commit_changes, clear_caches, reorg",
     "blockdb": "L3 block-keyed table BlockDatabase<V>: get/set/commit/clear_cache/last_key/reorg over the DB shim (view = cache over disk)",
@@ -64,13 +65,24 @@ PROPS = {
     },
 }
 
+PROPS["C20"] = {
+    "units": ["configdb"],
+    "kani": [],
+    "level_text": "Proof on the real functions: ConfigDatabase::validate returns Ok iff the stored value exists and equals the given one (missing record => Err); get prefers the in-memory row, set writes through; validate_config_database reaches Ok only with all four settings (DB_VERSION, PROTOCOL_VERSION, BITCOIN_RPC_NETWORK, EVM_RECORD_TRACES) recorded and equal to the running configuration, whether just written (fresh directory) or validated; versions pinned (7 / 2).",
+    "level_note": "Assumed: file system predicates (exists, is_dir, read_dir) uninterpreted; ConfigDatabase::new opens whatever is on disk; String codec injective on text (axiom; proved for the byte-vector codec in unit codec); HashMap<String,String> keyed by text through trusted wrappers (N23); decimal/bool to_string opaque. Not covered: start() calling the check before opening the engine (async), `an identical configuration always reopens successfully` beyond the absence of I/O errors.",
+    "assumptions": [
+        "file system and RocksDB behave as the shims say; I/O errors make the function return Err (allowed by the property: start-up fails)",
+        "lazy_static key/value literals are re-read from config.rs on every run (rule N6)",
+    ],
+}
+
 NOT_APPLICABLE = {
     "C07": "conservation is a property of Solidity/EVM bytecode executed by revm; neither Verus nor Kani has a semantics for it, no contract within reach can state it",
     "C10": "non-mutation is the frame condition of revm's replay/transact_one inside async fns; it could only be assumed, not proved, on code within reach",
     "C11": "quantifies over thread schedules; Kani has no threads, Verus would need permission types threaded through the code (different code)",
     "C17": "relational equivalence of two entry points of an external interpreter over arbitrary bytecode; no contract on code within reach expresses it",
 }
-PENDING = ["C02", "C04", "C05", "C06", "C08", "C09", "C14", "C15", "C18", "C19", "C20"]
+PENDING = ["C02", "C04", "C05", "C06", "C08", "C09", "C14", "C15", "C18", "C19"]
 for _p in PENDING:
     if _p not in PROPS:
         NOT_APPLICABLE[_p] = "check under construction in this commit (DESIGN.md 0); claimed once its units discharge"
